@@ -350,14 +350,14 @@ end SSVerif.Jsgf
 
 namespace SSVerif.Jsgf
 
-/-! ### the whole grammar -/
+/-! ### the whole grammar (a repeated rule name keeps its first definition) -/
 
-/-- invariant of `desugarFrom` after the rules `done` have been defined -/
+/-- invariant of `desugarFrom` after the rules `done` have been processed -/
 structure FromInv (done : Grammar) (T : Table) : Prop where
   good : Good T
   users : ∀ rl ∈ T, ∀ n, rl.name = .user n → ∃ r ∈ done, r.name = n
-  reps : ∀ r ∈ done, T.rules (.user r.name) ≠ [] ∧
-            repA T.rules (T.rules (.user r.name)).reverse r.body = true
+  reps : ∀ n body, done.lookup n = some body → T.rules (.user n) ≠ [] ∧
+            repA T.rules (T.rules (.user n)).reverse body = true
 
 theorem repA_ne_nil {R : Rules} {alts : List (List Atom)} {b : Alts} (h : repA R alts b = true) : alts ≠ [] := by
   intro h0; subst h0; simp [repA_nil] at h
@@ -365,10 +365,46 @@ theorem repA_ne_nil {R : Rules} {alts : List (List Atom)} {b : Alts} (h : repA R
 theorem altsOf_reverse (l : List (List WAtom)) : (altsOf l).reverse = altsOf l.reverse := by
   simp [altsOf]
 
-theorem fromInv_step {done : Grammar} {T : Table} (I : FromInv done T) (rl : SRule)
-    (hfresh : ∀ r ∈ done, r.name ≠ rl.name) :
+theorem lookup_isSome_of_mem {g : Grammar} {r : SRule} (h : r ∈ g) : (g.lookup r.name).isSome = true := by
+  unfold Grammar.lookup
+  rw [Option.isSome_map, List.find?_isSome]
+  exact ⟨r, h, by simp⟩
+
+theorem lookup_append_some {g : Grammar} {n : Nat} {b : Alts} (rl : SRule) (h : g.lookup n = some b) :
+    (g ++ [rl]).lookup n = some b := by
+  unfold Grammar.lookup at *
+  rw [List.find?_append]
+  cases hf : List.find? (fun r => r.name == n) g with
+  | none => simp [hf] at h
+  | some x => simpa [hf] using h
+
+theorem lookup_append_none {g : Grammar} {n : Nat} (rl : SRule) (h : g.lookup n = none) :
+    (g ++ [rl]).lookup n = if rl.name == n then some rl.body else none := by
+  unfold Grammar.lookup at *
+  rw [List.find?_append]
+  cases hf : List.find? (fun r => r.name == n) g with
+  | some x => simp [hf] at h
+  | none =>
+    by_cases hn : rl.name == n
+    · simp [hn]
+    · simp [hn]
+
+theorem defined_of_rules_ne {T : Table} {r : RName} (h : T.rules r ≠ []) : T.defined r = true := by
+  obtain ⟨x, hx⟩ := rules_ne_nil_find h
+  unfold Table.defined; rw [hx]; rfl
+
+theorem ExtG.defined {T T' : Table} (h : ExtG T T') {r : RName} (hd : T.defined r = true) : T'.defined r = true := by
+  obtain ⟨X, rfl, _⟩ := h
+  unfold Table.defined at *
+  cases hf : T.find r with
+  | none => simp [hf] at hd
+  | some rl => rw [find_append_of_some hf]; rfl
+
+theorem fromInv_step {done : Grammar} {T : Table} (I : FromInv done T) (rl : SRule) :
     FromInv (done ++ [rl])
-      ((desugarAlts rl.body T).2 ++ [{ name := .user rl.name, pub := rl.pub, alts := (desugarAlts rl.body T).1 }]) := by
+      (if (desugarAlts rl.body T).2.defined (.user rl.name) then (desugarAlts rl.body T).2
+       else (desugarAlts rl.body T).2 ++
+          [{ name := .user rl.name, pub := rl.pub, alts := (desugarAlts rl.body T).1 }]) := by
   obtain ⟨h1, h2, new, hnew, hrep⟩ := desugarAltsAcc_ok rl.body [] T I.good
   unfold desugarAlts
   generalize desugarAltsAcc rl.body [] T = r at h1 h2 hnew hrep
@@ -376,120 +412,142 @@ theorem fromInv_step {done : Grammar} {T : Table} (I : FromInv done T) (rl : SRu
   simp only at h1 h2 hnew hrep ⊢
   simp only [List.append_nil] at hnew
   subst hnew
-  let ur : Rule := { name := .user rl.name, pub := rl.pub, alts := alts }
-  have hnoU : ∀ r ∈ T1, r.name ≠ .user rl.name := by
+  -- user rules of `T1` are those of `T`
+  have husers1 : ∀ r ∈ T1, ∀ n, r.name = .user n → ∃ r' ∈ done, r'.name = n := by
     obtain ⟨X, rfl, hX⟩ := h2
-    intro r hr heq
+    intro r hr n hn
     rcases List.mem_append.mp hr with h | h
-    · obtain ⟨r', hr', hn⟩ := I.users r h _ heq
-      exact hfresh r' hr' hn
+    · exact I.users r h n hn
     · obtain ⟨k, hk⟩ := hX r h
-      rw [hk] at heq; cases heq
-  have hfind : (T1 ++ [ur]).find (.user rl.name) = some ur := by
-    unfold Table.find
-    rw [List.find?_append]
-    have : List.find? (fun r => r.name == RName.user rl.name) T1 = none := by
-      have := find_none_of_forall hnoU
-      unfold Table.find at this
-      exact this
-    rw [this]
-    simp [ur]
-  have hrules : (T1 ++ [ur]).rules (.user rl.name) = altsOf alts := by
-    unfold Table.rules
-    rw [hfind]; rfl
-  have hst1 : ∀ r, T1.rules r ≠ [] → (T1 ++ [ur]).rules r = T1.rules r :=
-    fun r hr => rules_append_stable r hr
-  constructor
-  · exact h1.snoc_user ur rl.name rfl
-  · intro r hr n hn
-    rcases List.mem_append.mp hr with h | h
-    · obtain ⟨X, rfl, hX⟩ := h2
-      rcases List.mem_append.mp h with h' | h'
-      · obtain ⟨r', hr', hn'⟩ := I.users r h' n hn
+      rw [hk] at hn; cases hn
+  have hreps1 : ∀ n body, done.lookup n = some body → T1.rules (.user n) ≠ [] ∧
+      repA T1.rules (T1.rules (.user n)).reverse body = true := by
+    intro n body hl
+    obtain ⟨hne, hr0⟩ := I.reps n body hl
+    have e1 : T1.rules (.user n) = T.rules (.user n) := h2.stable _ hne
+    exact ⟨by rw [e1]; exact hne, by rw [e1]; exact repA_mono h2.stable body _ hr0⟩
+  by_cases hdef : T1.defined (.user rl.name) = true
+  · -- repeated name: the table keeps the first definition
+    simp only [hdef, if_true]
+    have hold : ∃ b, done.lookup rl.name = some b := by
+      unfold Table.defined at hdef
+      cases hf : T1.find (.user rl.name) with
+      | none => simp [hf] at hdef
+      | some x =>
+        unfold Table.find at hf
+        have hm := List.mem_of_find?_eq_some hf
+        have hn : x.name = .user rl.name := by simpa using List.find?_some hf
+        obtain ⟨r', hr', hn'⟩ := husers1 x hm _ hn
+        have := lookup_isSome_of_mem hr'
+        rw [hn'] at this
+        exact Option.isSome_iff_exists.mp this
+    refine ⟨h1, ?_, ?_⟩
+    · intro r hr n hn
+      obtain ⟨r', hr', hn'⟩ := husers1 r hr n hn
+      exact ⟨r', List.mem_append_left _ hr', hn'⟩
+    · intro n body hl
+      cases hd : done.lookup n with
+      | some b =>
+        rw [lookup_append_some rl hd] at hl
+        simp only [Option.some.injEq] at hl
+        subst hl
+        exact hreps1 n b hd
+      | none =>
+        rw [lookup_append_none rl hd] at hl
+        by_cases hn : rl.name == n
+        · have : rl.name = n := by simpa using hn
+          subst this
+          obtain ⟨b, hb⟩ := hold
+          rw [hb] at hd; cases hd
+        · simp [hn] at hl
+  · simp only [hdef, Bool.false_eq_true, if_false]
+    simp only [Bool.not_eq_true] at hdef
+    let ur : Rule := { name := .user rl.name, pub := rl.pub, alts := alts }
+    have hnone : T1.find (.user rl.name) = none := by
+      unfold Table.defined at hdef
+      cases hf : T1.find (.user rl.name) with
+      | none => rfl
+      | some x => simp [hf] at hdef
+    have hfind : (T1 ++ [ur]).find (.user rl.name) = some ur := by
+      unfold Table.find at hnone ⊢
+      rw [List.find?_append, hnone]
+      simp [ur]
+    have hrules : (T1 ++ [ur]).rules (.user rl.name) = altsOf alts := by
+      unfold Table.rules
+      rw [hfind]; rfl
+    have hst1 : ∀ r, T1.rules r ≠ [] → (T1 ++ [ur]).rules r = T1.rules r :=
+      fun r hr => rules_append_stable r hr
+    have hnew_none : done.lookup rl.name = none := by
+      cases hd : done.lookup rl.name with
+      | none => rfl
+      | some b =>
+        have := defined_of_rules_ne (hreps1 _ b hd).1
+        rw [hdef] at this; cases this
+    refine ⟨h1.snoc_user ur rl.name rfl, ?_, ?_⟩
+    · intro r hr n hn
+      rcases List.mem_append.mp hr with h | h
+      · obtain ⟨r', hr', hn'⟩ := husers1 r h n hn
         exact ⟨r', List.mem_append_left _ hr', hn'⟩
-      · obtain ⟨k, hk⟩ := hX r h'
-        rw [hk] at hn; cases hn
-    · simp only [List.mem_singleton] at h
-      subst h
-      cases hn
-      exact ⟨rl, by simp, rfl⟩
-  · intro r hr
-    rcases List.mem_append.mp hr with h | h
-    · obtain ⟨hne, hr0⟩ := I.reps r h
-      have e1 : T1.rules (.user r.name) = T.rules (.user r.name) := h2.stable _ hne
-      have hne1 : T1.rules (.user r.name) ≠ [] := by rw [e1]; exact hne
-      have e2 : (T1 ++ [ur]).rules (.user r.name) = T.rules (.user r.name) := by
-        rw [hst1 _ hne1, e1]
-      refine ⟨by rw [e2]; exact hne, ?_⟩
-      rw [e2]
-      exact repA_mono hst1 r.body _ (repA_mono h2.stable r.body _ hr0)
-    · simp only [List.mem_singleton] at h
-      subst h
-      have hne : altsOf alts ≠ [] := by
-        intro h0
-        have := repA_ne_nil hrep
-        rw [← altsOf_reverse, h0] at this
-        exact this rfl
-      refine ⟨by rw [hrules]; exact hne, ?_⟩
-      rw [hrules, altsOf_reverse]
-      exact repA_mono hst1 r.body _ hrep
+      · simp only [List.mem_singleton] at h
+        subst h
+        cases hn
+        exact ⟨rl, by simp, rfl⟩
+    · intro n body hl
+      cases hd : done.lookup n with
+      | some b =>
+        rw [lookup_append_some rl hd] at hl
+        simp only [Option.some.injEq] at hl
+        subst hl
+        obtain ⟨hne1, hr1⟩ := hreps1 n b hd
+        have e2 := hst1 _ hne1
+        exact ⟨by rw [e2]; exact hne1, by rw [e2]; exact repA_mono hst1 b _ hr1⟩
+      | none =>
+        rw [lookup_append_none rl hd] at hl
+        by_cases hn : rl.name == n
+        · have hnn : rl.name = n := by simpa using hn
+          subst hnn
+          simp only [BEq.rfl, if_true, Option.some.injEq] at hl
+          subst hl
+          have hne : altsOf alts ≠ [] := by
+            intro h0
+            have := repA_ne_nil hrep
+            rw [← altsOf_reverse, h0] at this
+            exact this rfl
+          refine ⟨by rw [hrules]; exact hne, ?_⟩
+          rw [hrules, altsOf_reverse]
+          exact repA_mono hst1 rl.body _ hrep
+        · simp [hn] at hl
 
 theorem desugarFrom_inv : ∀ (rest done : Grammar) (T : Table), FromInv done T →
-    (∀ r ∈ done, ∀ r' ∈ rest, r.name ≠ r'.name) → namesDistinct rest = true →
     FromInv (done ++ rest) (desugarFrom rest T)
-  | [], done, T, I, _, _ => by simpa [desugarFrom] using I
-  | rl :: rest, done, T, I, hdis, hnd => by
-    simp only [namesDistinct, Bool.and_eq_true, Bool.not_eq_true', List.any_eq_false, beq_iff_eq] at hnd
-    have step := fromInv_step I rl (fun r hr => hdis r hr rl (by simp))
-    have := desugarFrom_inv rest (done ++ [rl]) _ step
-      (by
-        intro r hr r' hr'
-        rcases List.mem_append.mp hr with h | h
-        · exact hdis r h r' (List.mem_cons_of_mem _ hr')
-        · simp only [List.mem_singleton] at h
-          subst h
-          exact fun heq => hnd.1 r' hr' heq.symm)
-      hnd.2
+  | [], done, T, I => by simpa [desugarFrom] using I
+  | rl :: rest, done, T, I => by
+    have step := fromInv_step I rl
     simp only [desugarFrom]
-    simpa [List.append_assoc] using this
+    by_cases hdef : (desugarAlts rl.body T).2.defined (.user rl.name) = true
+    · simp only [hdef, if_true] at step ⊢
+      have := desugarFrom_inv rest (done ++ [rl]) _ step
+      simpa [List.append_assoc] using this
+    · simp only [hdef, Bool.false_eq_true, if_false] at step ⊢
+      have := desugarFrom_inv rest (done ++ [rl]) _ step
+      simpa [List.append_assoc] using this
 
-theorem lookup_of_distinct : ∀ (g : Grammar), namesDistinct g = true → ∀ rl ∈ g, g.lookup rl.name = some rl.body
-  | [], _, rl, h => by cases h
-  | r0 :: rest, hnd, rl, hm => by
-    simp only [namesDistinct, Bool.and_eq_true, Bool.not_eq_true', List.any_eq_false, beq_iff_eq] at hnd
-    rcases List.mem_cons.mp hm with rfl | h
-    · simp [Grammar.lookup]
-    · have hne : ¬ (r0.name = rl.name) := fun heq => hnd.1 rl h heq.symm
-      have ih := lookup_of_distinct rest hnd.2 rl h
-      unfold Grammar.lookup at ih ⊢
-      rw [List.find?_cons_of_neg (by simpa using hne)]
-      exact ih
-
-theorem lookup_isSome_of_mem {g : Grammar} {r : SRule} (h : r ∈ g) : (g.lookup r.name).isSome = true := by
-  unfold Grammar.lookup
-  rw [Option.isSome_map, List.find?_isSome]
-  exact ⟨r, h, by simp⟩
-
-/-- the model of the parser actions always yields a table that represents the grammar -/
-theorem desugar_matches (g : Grammar) (hnd : namesDistinct g = true) : tableMatches (desugar g) g = true := by
+/-- the model of the parser actions always yields a table that represents the grammar (for a
+repeated rule name, `Grammar.lookup` and the table both keep the first definition) -/
+theorem desugar_matches (g : Grammar) : tableMatches (desugar g) g = true := by
   have I : FromInv ([] ++ g) (desugarFrom g []) :=
     desugarFrom_inv g [] []
       { good := by intro i hi; simp at hi
         users := by intro rl h; cases h
-        reps := by intro r h; cases h }
-      (by intro r h; cases h) hnd
+        reps := by intro n body h; simp [Grammar.lookup] at h }
   simp only [List.nil_append] at I
   unfold tableMatches desugar
   simp only [Bool.and_eq_true, List.all_eq_true]
   constructor
   · intro rl hrl
-    obtain ⟨hne, hrep⟩ := I.reps rl hrl
-    constructor
-    · unfold Table.defined
-      obtain ⟨x, hx⟩ := rules_ne_nil_find hne
-      rw [hx]; rfl
-    · rw [lookup_of_distinct g hnd rl hrl]
-      exact hrep
+    obtain ⟨b, hb⟩ := Option.isSome_iff_exists.mp (lookup_isSome_of_mem hrl)
+    obtain ⟨hne, hrep⟩ := I.reps rl.name b hb
+    exact ⟨defined_of_rules_ne hne, by rw [hb]; exact hrep⟩
   · intro rl hrl
     cases hn : rl.name with
     | gen k => rfl
